@@ -1,15 +1,21 @@
 /-
   C19 — block addressing and checksum accounting are exact and complete.
   Property theorems only; helper lemmas are in Proofs/Block.lean, BlockRead.lean, BlockGrammar.lean,
-  SegmentMulti.lean, ChecksumAcct.lean.  The models are those of the repaired code
-  (/verif/fixes/block 01–07).  Files are the `fs` parameter (a file = its bytes, `none` = cannot be
+  SegmentMulti.lean, ChecksumAcct.lean, PgChecksum.lean.  The models are those of the repaired code
+  (/verif/fixes/block 01–10).  Files are the `fs` parameter (a file = its bytes, `none` = cannot be
   opened); `hex.Dump` and the checksum function are parameters.
+
+  What is NOT proved here, on purpose: that a checksum verdict is the one PostgreSQL gives.  The accounting theorems
+  hold for any checksum function `ck`; the tool's own function is not PostgreSQL's `pg_checksum_page` (open finding
+  `C19-checksum-not-postgres`, last section).
 -/
 import PgVerif.Proofs.BlockRead
 import PgVerif.Proofs.BlockGrammar
 import PgVerif.Proofs.SegmentMulti
 import PgVerif.Proofs.ChecksumAcct
 import PgVerif.Proofs.SegmentPath
+import PgVerif.Proofs.PgChecksum
+import PgVerif.Proofs.ChecksumDirSpec
 namespace PgVerif.Props.C19
 open PgVerif PgVerif.Model PgVerif.Proofs.Block PgVerif.Proofs.BlockGrammar PgVerif.Proofs.SegmentMulti
   PgVerif.Proofs.ChecksumAcct PgVerif.Proofs.SegmentPath
@@ -42,7 +48,8 @@ example : rangeSyntax [49, 50, 58, 51, 52] = some (12, 34) ∧ rangeSyntax [58] 
 
 /-! ## ReadBlockRange -/
 
-/-- For EVERY file content (any byte string shorter than 2^62) and every request: ReadBlockRange resolves
+/-- For EVERY file content (any byte string shorter than 2^62 — since fix 10 the read is repeated until the range is
+complete, so the 1 GiB limit of a single `Read` no longer cuts the result) and every request: ReadBlockRange resolves
 the request against `len / 8192` blocks as documented (start defaults to 0, stop to the last block and is
 clamped to it; a start at or beyond the end → "beyond" error; start > stop → "invalid range" error) and
 returns exactly the bytes [8192·a, 8192·(b+1)) — nothing of a partial tail, nothing else. -/
@@ -258,38 +265,240 @@ theorem C19_cksum_file_spec (ck : Bytes → Nat → Nat) (f : RelFile) (seg : Na
       r.errors.map toCkError = (ckFileView ck seg f.blocks).errors :=
   verifyFileChecksums_encFile ck f seg hwf hseg
 
-/-- VerifyDataDirChecksums, for every directory content and any order of the directory listings:
-the scanned files are — over the entries of `base` sorted by name (a permutation: each entry exactly once) —
-for each DIRECTORY whose name is a uint32, over its entries sorted by name, each plain FILE whose name passes
-the filter and that holds at least one block, verified with the segment number the filter extracted; the
-totals are the sums over the scanned files and the listed files are those with at least one error. -/
+/-- VerifyDataDirChecksums, for every directory content and ANY order in which the directory listings come:
+the summary is computed over `scannedFiles`, and `scannedFiles` is a permutation (every file exactly as often) of
+`listedFiles`: the visited files of `global/`, of every `base/<uint32>/` and of every
+`pg_tblspc/<uint32>/PG_…/<uint32>/`, taken straight from the directory contents as given.  So TotalFiles and the
+three block totals are those of `listedFiles`, and the listed files with errors are a permutation of those of
+`listedFiles`.  (Which entry of such a directory is visited: `C19_cksum_visit`.) -/
 theorem C19_cksum_dir (ck : Bytes → Nat → Nat) (fs : DataDirFS) (entries : List (Bytes × BaseEntry))
     (h : fs.base = some entries) :
-    verifyDataDirChecksums ck fs =
-      .ok (.ok (summarize fs.checksumsEnabled ((sortByName entries).flatMap (visitDb ck)))) ∧
-    (sortByName entries).Perm entries ∧
-    (∀ db (es : List (Bytes × DbEntry)), (sortByName es).Perm es ∧
-      ∀ x, visitFile ck db x = match x.2 with
-        | .dir => none
-        | .file data => match relFileSegment x.1 with
-          | none => none
-          | some seg => if data.length < 8192 then none else some ⟨db, x.1, fileResult ck data seg⟩) :=
-  ⟨verifyDataDirChecksums_eq ck fs entries h, sortByName_perm entries,
-   fun _ es => ⟨sortByName_perm es, fun _ => rfl⟩⟩
+    ∃ r, verifyDataDirChecksums ck fs = .ok (.ok r) ∧
+      r.checksumsEnabled = fs.checksumsEnabled ∧
+      r.totalFiles = (listedFiles ck fs entries).length ∧
+      r.totalBlocks = ((listedFiles ck fs entries).map (·.result.totalBlocks)).sum ∧
+      r.validBlocks = ((listedFiles ck fs entries).map (·.result.validBlocks)).sum ∧
+      r.invalidBlocks = ((listedFiles ck fs entries).map (·.result.invalidBlocks)).sum ∧
+      r.files.Perm ((listedFiles ck fs entries).filter fun f => !f.result.errors.isEmpty) := by
+  have hp := scannedFiles_perm ck fs entries
+  refine ⟨_, verifyDataDirChecksums_eq ck fs entries h, rfl, hp.length_eq, sum_map_perm _ hp, sum_map_perm _ hp,
+    sum_map_perm _ hp, hp.filter _⟩
 
-/-- The file-name filter of the scan (fix 07): exactly `<digits>` (segment 0) and `<digits>.<digits>`
-(that segment, any number of digits), both numbers below 2^32; fork files (`_fsm`, `_vm`), `pg_filenode.map`,
-`PG_VERSION` … do not pass. -/
-theorem C19_cksum_names (name : Bytes) (seg : Nat) : relFileSegment name = some seg ↔
-    ((46 : UInt8) ∉ name ∧ (parseUint32 name).isSome ∧ seg = 0) ∨
-    (∃ stem suffix, name = stem ++ 46 :: suffix ∧ (46 : UInt8) ∉ suffix ∧ (parseUint32 stem).isSome ∧
-      parseUint32 suffix = some seg) :=
-  relFileSegment_iff name seg
+/-- Which entries of a scanned directory are visited, in PostgreSQL's terms: entry `(name, e)` of directory `db`
+yields a verified file exactly when it is a plain file, the Spec's recogniser of relation segment file names
+(`relSegNumber`: `<relfilenode>[_fsm|_vm|_init][.<segno>]`, 32-bit decimal numbers — EVERY fork, every segment
+number) accepts `name` with segment number `seg`, and the file holds at least one block; the file is then verified
+as segment `seg` (`fileResult`, see `C19_cksum_file`): block i is relation block seg·131072 + i, in every fork.
+Sub-directories, `PG_VERSION`, `pg_filenode.map`, `pg_internal.init`, `pg_control`, temporary relations
+(`t3_16384`) and malformed names are not visited. -/
+theorem C19_cksum_visit (ck : Bytes → Nat → Nat) (db name : Bytes) (e : DbEntry) (sf : ScannedFile) :
+    visitFile ck db (name, e) = some sf ↔
+      ∃ data seg, e = .file data ∧ relSegNumber name = some seg ∧ 8192 ≤ data.length ∧
+        sf = ⟨db, name, fileResult ck data seg⟩ := by
+  unfold visitFile
+  cases e with
+  | dir =>
+    constructor
+    · intro h; cases h
+    · rintro ⟨_, _, h, _⟩; cases h
+  | file data =>
+    simp only [relFileSegment_eq_relSegNumber]
+    cases hs : relSegNumber name with
+    | none =>
+      constructor
+      · intro h; cases h
+      · rintro ⟨_, _, _, h, _⟩; cases h
+    | some seg =>
+      by_cases hl : data.length < 8192
+      · simp only [hl, if_true]
+        constructor
+        · intro h; cases h
+        · rintro ⟨d, _, hd, _, h8, _⟩
+          cases hd
+          omega
+      · simp only [hl, if_false]
+        constructor
+        · intro h
+          exact ⟨data, seg, rfl, rfl, by omega, (Option.some.inj h).symm⟩
+        · rintro ⟨d, sg, hd, hsg, _, rfl⟩
+          cases hd
+          cases hsg
+          rfl
 
-/-- non-vacuity: "16384.11" is segment 11 of a relation, "16384_fsm" and "16384.x" are skipped -/
-example : relFileSegment [49, 54, 51, 56, 52, 46, 49, 49] = some 11 ∧
-    relFileSegment [49, 54, 51, 56, 52, 95, 102, 115, 109] = none ∧
-    relFileSegment [49, 54, 51, 56, 52, 46, 120] = none := by decide
+/-- Which files are visited at all: `sf` is among the visited files exactly when it comes from an entry of
+`global/`, or of a real directory `base/<name>` whose name is a uint32, or of a real directory
+`pg_tblspc/<spc>/<ver>/<name>` where `<spc>` and `<name>` are uint32s, `<spc>` can be listed (a directory or a
+symbolic link to one) and `<ver>` is a real directory whose name starts with `PG_`. -/
+theorem C19_cksum_dirs (ck : Bytes → Nat → Nat) (fs : DataDirFS) (entries : List (Bytes × BaseEntry)) (sf : ScannedFile) :
+    sf ∈ listedFiles ck fs entries ↔
+      (∃ es x, fs.global = some es ∧ x ∈ es ∧ visitFile ck globalName x = some sf) ∨
+      (∃ name es x, (name, BaseEntry.dir es) ∈ entries ∧ (parseUint32 name).isSome ∧ x ∈ es ∧
+        visitFile ck (joinPath baseName name) x = some sf) ∨
+      (∃ spc vers ver dbs name es x, (spc, SpcEntry.dir vers) ∈ fs.tblspc ∧ (parseUint32 spc).isSome ∧
+        (ver, VerEntry.dir dbs) ∈ vers ∧ ver.take 3 = pgPrefix ∧
+        (name, BaseEntry.dir es) ∈ dbs ∧ (parseUint32 name).isSome ∧ x ∈ es ∧
+        visitFile ck (joinPath (joinPath (joinPath tblspcName spc) ver) name) x = some sf) := by
+  have hdb : ∀ dir (l : List (Bytes × BaseEntry)), sf ∈ l.flatMap (visitDbU ck dir) ↔
+      ∃ name es x, (name, BaseEntry.dir es) ∈ l ∧ (parseUint32 name).isSome ∧ x ∈ es ∧
+        visitFile ck (joinPath dir name) x = some sf := by
+    intro dir l
+    simp only [List.mem_flatMap]
+    constructor
+    · rintro ⟨⟨name, e⟩, hx, hm⟩
+      cases e with
+      | file => simp [visitDbU] at hm
+      | dir es =>
+        unfold visitDbU at hm
+        by_cases hn : (parseUint32 name).isNone = true
+        · simp [hn] at hm
+        · simp only [hn, if_false, Bool.false_eq_true, List.mem_filterMap] at hm
+          obtain ⟨x, hxe, hv⟩ := hm
+          refine ⟨name, es, x, hx, ?_, hxe, hv⟩
+          cases hp : parseUint32 name with
+          | none => simp [hp] at hn
+          | some _ => rfl
+    · rintro ⟨name, es, x, hx, hs, hxe, hv⟩
+      refine ⟨(name, .dir es), hx, ?_⟩
+      unfold visitDbU
+      have hn : ¬ (parseUint32 name).isNone = true := by
+        cases hp : parseUint32 name with
+        | none => simp [hp] at hs
+        | some _ => simp
+      simp only [hn, if_false, Bool.false_eq_true, List.mem_filterMap]
+      exact ⟨x, hxe, hv⟩
+  unfold listedFiles
+  simp only [List.mem_append, hdb]
+  constructor
+  · rintro ((hg | hb) | ht)
+    · left
+      cases hgl : fs.global with
+      | none => simp [hgl] at hg
+      | some es =>
+        simp only [hgl, List.mem_filterMap] at hg
+        obtain ⟨x, hx, hv⟩ := hg
+        exact ⟨es, x, rfl, hx, hv⟩
+    · exact Or.inr (Or.inl hb)
+    · right; right
+      simp only [List.mem_flatMap] at ht
+      obtain ⟨⟨spc, e⟩, hspc, hm⟩ := ht
+      unfold visitSpcU at hm
+      by_cases hn : (parseUint32 spc).isNone = true
+      · simp [hn] at hm
+      · simp only [hn, if_false, Bool.false_eq_true] at hm
+        cases e with
+        | file => simp at hm
+        | dir vers =>
+          simp only [List.mem_flatMap] at hm
+          obtain ⟨⟨ver, ve⟩, hver, hm2⟩ := hm
+          cases ve with
+          | file => simp [visitVerU] at hm2
+          | dir dbs =>
+            unfold visitVerU at hm2
+            by_cases hpfx : (ver.take 3 != pgPrefix) = true
+            · simp [hpfx] at hm2
+            · simp only [hpfx, if_false, Bool.false_eq_true] at hm2
+              obtain ⟨name, es, x, h1, h2, h3, h4⟩ := (hdb _ dbs).mp hm2
+              refine ⟨spc, vers, ver, dbs, name, es, x, hspc, ?_, hver, ?_, h1, h2, h3, h4⟩
+              · cases hp : parseUint32 spc with
+                | none => simp [hp] at hn
+                | some _ => rfl
+              · simpa using hpfx
+  · rintro (⟨es, x, hg, hx, hv⟩ | hb | ⟨spc, vers, ver, dbs, name, es, x, hspc, hs, hver, hpfx, h1, h2, h3, h4⟩)
+    · left; left
+      simp only [hg, List.mem_filterMap]
+      exact ⟨x, hx, hv⟩
+    · exact Or.inl (Or.inr hb)
+    · right
+      simp only [List.mem_flatMap]
+      refine ⟨(spc, .dir vers), hspc, ?_⟩
+      unfold visitSpcU
+      have hn : ¬ (parseUint32 spc).isNone = true := by
+        cases hp : parseUint32 spc with
+        | none => simp [hp] at hs
+        | some _ => simp
+      simp only [hn, if_false, Bool.false_eq_true, List.mem_flatMap]
+      refine ⟨(ver, .dir dbs), hver, ?_⟩
+      unfold visitVerU
+      have hq : ¬ (ver.take 3 != pgPrefix) = true := by simp [hpfx]
+      simp only [hq, if_false, Bool.false_eq_true]
+      exact (hdb _ dbs).mpr ⟨name, es, x, h1, h2, h3, h4⟩
+
+/-- The file-name filter of the scan (fixes 07, 08) IS the Spec's recogniser of relation segment file names, for
+every byte string: `<relfilenode>[_fsm|_vm|_init]` (segment 0) and `<relfilenode>[_fsm|_vm|_init].<segno>` (that
+segment, any number of digits), both numbers decimal and below 2^32. -/
+theorem C19_cksum_names (name : Bytes) : relFileSegment name = relSegNumber name :=
+  relFileSegment_eq_relSegNumber name
+
+/-- non-vacuity: "16384.11" is segment 11 of a relation, "16384_fsm" and "16384_vm.1" are segments 0 and 1 of its
+forks; "16384.x", "16384_fsm_vm", "t3_16384" and "pg_filenode.map" are not relation files -/
+example : relSegNumber [49, 54, 51, 56, 52, 46, 49, 49] = some 11 ∧
+    relSegNumber [49, 54, 51, 56, 52, 95, 102, 115, 109] = some 0 ∧
+    relSegNumber [49, 54, 51, 56, 52, 95, 118, 109, 46, 49] = some 1 ∧
+    relSegNumber [49, 54, 51, 56, 52, 46, 120] = none ∧
+    relSegNumber [49, 54, 51, 56, 52, 95, 102, 115, 109, 95, 118, 109] = none ∧
+    relSegNumber [116, 51, 95, 49, 54, 51, 56, 52] = none ∧
+    relSegNumber [112, 103, 95, 102, 105, 108, 101, 110, 111, 100, 101, 46, 109, 97, 112] = none := by decide
+
+section DirSpec
+open PgVerif.Proofs.ChecksumDirSpec
+
+/-- The directory scan against the Spec.  For EVERY well-formed data directory in PostgreSQL's terms
+(`Spec.BlockAddr.DataDir`: relation segment files of every fork — main, `_fsm`, `_vm`, `_init` — with segment
+suffixes, next to non-relation files and sub-directories, in `global/`, in the database directories of `base/` and
+in those of tablespaces `pg_tblspc/<oid>/PG_…/`; stray files and non-OID directories around them), whatever the
+blocks' stored checksums and for any checksum function: VerifyDataDirChecksums on its file tree reports the Spec's
+view `ckDirView` — TotalFiles = the relation segment files holding at least one block, the three block totals =
+the sums of the Spec's per-file accounting (`ckFileView`: block i of segment `seg` of any fork is block
+seg·131072 + i; every block counted once, valid or invalid), and the listed files are, up to order, exactly the Spec's
+files with at least one invalid block, each with exactly its invalid blocks.  (`fsOf` lists a directory's entries in
+one particular order; `C19_cksum_dir` shows the order does not matter.) -/
+theorem C19_cksum_dir_spec (ck : Bytes → Nat → Nat) (enabled : Bool) (d : DataDir) (hwf : d.WF) :
+    ∃ r, verifyDataDirChecksums ck (fsOf enabled d) = .ok (.ok r) ∧
+      r.totalFiles = (ckDirView ck d).totalFiles ∧
+      r.totalBlocks = (ckDirView ck d).totalBlocks ∧
+      r.validBlocks = (ckDirView ck d).validBlocks ∧
+      r.invalidBlocks = (ckDirView ck d).invalidBlocks ∧
+      (r.files.map toCkDirFile).Perm (ckDirView ck d).files := by
+  obtain ⟨r, hr, _, h1, h2, h3, h4, h5⟩ := C19_cksum_dir ck (fsOf enabled d) (baseEntriesOf d.base) rfl
+  have hl := listedFiles_spec ck enabled d hwf
+  have hm : ∀ (g : CkDirFile → Nat) (g' : ScannedFile → Nat), (∀ sf, g (toCkDirFile sf) = g' sf) →
+      ((listedFiles ck (fsOf enabled d) (baseEntriesOf d.base)).map g').sum = ((ckDirFiles ck d).map g).sum := by
+    intro g g' hgg
+    rw [← hl, List.map_map]
+    congr 1
+    apply List.map_congr_left
+    intro sf _
+    exact (hgg sf).symm
+  refine ⟨r, hr, ?_, ?_, ?_, ?_, ?_⟩
+  · rw [h1]; show _ = (ckDirFiles ck d).length; rw [← hl, List.length_map]
+  · rw [h2]; exact hm (·.view.totalBlocks) _ fun _ => rfl
+  · rw [h3]; exact hm (·.view.validBlocks) _ fun _ => rfl
+  · rw [h4]; exact hm (·.view.invalidBlocks) _ fun _ => rfl
+  · have := h5.map toCkDirFile
+    refine this.trans ?_
+    have hv : (ckDirView ck d).files = (ckDirFiles ck d).filter fun f => !f.view.errors.isEmpty := rfl
+    rw [hv, ← hl, List.filter_map]
+    have e : ((fun f : CkDirFile => !f.view.errors.isEmpty) ∘ toCkDirFile) = fun f : ScannedFile => !f.result.errors.isEmpty := by
+      funext sf
+      simp only [Function.comp, toCkDirFile, toView, List.isEmpty_map]
+    rw [e]
+
+/-- non-vacuity: a data directory with a main-fork file, a visibility-map fork with a segment suffix, a shared catalog
+in `global/` and a tablespace — next to `PG_VERSION`, `pg_filenode.map`, a temporary relation and a non-OID directory —
+is well-formed, and the Spec's view counts its four relation segment files -/
+example :
+    let f : RelFile := ⟨[zeroBlock], []⟩
+    let db : Database := { oid := 5, segs := [⟨16384, .main, 0, f⟩, ⟨16384, .vm, 1, f⟩],
+                           others := [([80, 71, 95, 86, 69, 82, 83, 73, 79, 78], [1]), ([116, 51, 95, 49, 54, 51, 56, 52], [2])],
+                           subdirs := [[120]] }
+    let g : Database := { oid := 0, segs := [⟨1260, .main, 0, f⟩],
+                          others := [([112, 103, 95, 102, 105, 108, 101, 110, 111, 100, 101, 46, 109, 97, 112], [3])], subdirs := [] }
+    let t : Tablespace := ⟨16400, [80, 71, 95, 49, 53], ⟨[{ oid := 7, segs := [⟨16401, .fsm, 0, f⟩], others := [], subdirs := [] }], [], []⟩⟩
+    let d : DataDir := ⟨some g, ⟨[db], [[50]], [([45, 49], [])]⟩, [t]⟩
+    d.WF ∧ (ckDirView (fun _ _ => 0) d).totalFiles = 4 := by
+  decide +kernel
+
+end DirSpec
 
 /-- a data directory without a readable `base` is an error -/
 theorem C19_cksum_dir_nobase (ck : Bytes → Nat → Nat) (fs : DataDirFS) (h : fs.base = none) :
@@ -317,5 +526,74 @@ theorem C19_copy_field (page : Bytes) (bn : Nat) (x y : UInt8) (h : 10 ≤ page.
     pageCopy_field page x y h
   unfold computePageChecksum
   rw [hc]
+
+/-! ## the verdict against PostgreSQL's `pg_checksum_page` (open finding `C19-checksum-not-postgres`)
+
+Everything above holds for ANY checksum function `ck`: it is accounting.  Whether a verdict is the one PostgreSQL
+gives depends on `ck` being `pg_checksum_page` — and the tool's `computePageChecksum` is not that function.  The Spec
+of the real algorithm (`Spec/PgChecksum.lean`) has the 32 base offsets as a parameter `offs` (the constants are not
+available in this sandbox and are not invented), so the statements below are for every table. -/
+
+section Postgres
+open PgVerif.Spec.PgChecksum PgVerif.Proofs.PgChecksum
+
+/-- PARTIAL (the carve-out is the hypothesis `hagree`): on a full block that is all-zero or not new
+(`pd_upper ≠ 0`), IF the tool's function gives the value of PostgreSQL's `pg_checksum_page` for this block and
+number, THEN the tool's verdict (`Valid`) is PostgreSQL's verdict.  What is missing: `hagree` itself — it is false
+in general (`C19_checksum_not_postgres`), because `computePageChecksum` is a home-made rotate/xor fold and not the
+32-lane FNV-1a of checksum_impl.h; on a cluster with data checksums the tool's verdicts are therefore not
+PostgreSQL's.  Recorded as open finding `C19-checksum-not-postgres` (class tag `kf:C19-checksum-not-postgres`). -/
+theorem C19_verdict_postgres_partial (offs : List Nat) (page : Bytes) (bn : Nat) (hlen : page.length = 8192)
+    (hnew : Spec.PgChecksum.allZero page = true ∨ pdUpper page ≠ 0)
+    (hagree : computePageChecksum page bn = pgChecksumPage offs page bn) :
+    ∃ r, verifyPageChecksum computePageChecksum page bn = .ok r ∧ some r.valid = pageVerdict offs page bn := by
+  by_cases hz : Model.allZero page = true
+  · refine ⟨⟨bn, 0, 0, true, 0, ""⟩, ?_, ?_⟩
+    · unfold verifyPageChecksum
+      have h1 : ¬ page.length < 8192 := by omega
+      simp only [h1, hz, if_false, if_true, pure_eq_ok]
+    · unfold pageVerdict
+      have : Spec.PgChecksum.allZero page = true := hz
+      simp only [this, if_true]
+  · have hz' : Model.allZero page = false := by simpa using hz
+    have hzs : Spec.PgChecksum.allZero page = false := hz'
+    have hu : pdUpper page ≠ 0 := by
+      rcases hnew with h | h
+      · rw [hzs] at h; cases h
+      · exact h
+    refine ⟨_, verifyPageChecksum_full computePageChecksum page bn hlen hz', ?_⟩
+    unfold pageVerdict
+    simp only [hzs, Bool.false_eq_true, if_false, hu, hagree]
+    rfl
+
+/-- The open finding, machine-checked and for EVERY base-offset table: there is a full, non-new block
+(`witnessPage`: an empty heap page with stored checksum 0, as block 0) that the tool reports VALID
+(`computePageChecksum` gives 0 = the stored value) and PostgreSQL reports INVALID (`pg_checksum_page` is never 0). -/
+theorem C19_checksum_not_postgres :
+    ∃ page bn, page.length = 8192 ∧ pdUpper page ≠ 0 ∧
+      (∃ r, verifyPageChecksum computePageChecksum page bn = .ok r ∧ r.valid = true) ∧
+      ∀ offs, pageVerdict offs page bn = some false ∧ computePageChecksum page bn ≠ pgChecksumPage offs page bn := by
+  refine ⟨witnessPage, 0, witnessPage_length, by rw [witnessPage_upper]; decide, ?_, ?_⟩
+  · refine ⟨_, verifyPageChecksum_full computePageChecksum witnessPage 0 witnessPage_length witnessPage_not_zero, ?_⟩
+    show (storedCk witnessPage == computePageChecksum witnessPage 0) = true
+    rw [witnessPage_tool]
+    have : storedCk witnessPage = 0 := witnessPage_stored
+    rw [this]
+    rfl
+  · intro offs
+    refine ⟨pageVerdict_stored_zero offs witnessPage 0 witnessPage_not_zero' (by rw [witnessPage_upper]; decide)
+      witnessPage_stored, ?_⟩
+    rw [witnessPage_tool]
+    have := (pgChecksumPage_range offs witnessPage 0).1
+    omega
+
+/-- `pg_checksum_page` never returns 0 and does not depend on the stored checksum field, for every table. -/
+theorem C19_pg_checksum_page_facts (offs : List Nat) (page : Bytes) (bn : Nat) :
+    (1 ≤ pgChecksumPage offs page bn ∧ pgChecksumPage offs page bn ≤ 65535) ∧
+    (∀ x y : UInt8, 10 ≤ page.length →
+      pgChecksumPage offs (page.take 8 ++ [x, y] ++ page.drop 10) bn = pgChecksumPage offs page bn) :=
+  ⟨pgChecksumPage_range offs page bn, fun x y h => pgChecksumPage_field offs page bn x y h⟩
+
+end Postgres
 
 end PgVerif.Props.C19
